@@ -118,6 +118,9 @@ const (
 	WrapExec
 	WrapExec2
 	WrapGov
+	// WrapExecTail: the first message stays top-level, the others are nested in one MsgExec executed by the first
+	// message's signer (an account needs no grant to execute its own messages).
+	WrapExecTail
 )
 
 type Tx struct {
